@@ -18,6 +18,8 @@ func init() {
 		{"multi-return", 4, (*gen).opMultiReturn},
 		{"closure-factory", 4, (*gen).opClosureFactory},
 		{"append-self", 4, (*gen).opAppendSelf},
+		{"append-own-elements", 4, (*gen).opAppendOwnElements},
+		{"named-results-swap", 4, (*gen).opNamedResultsSwap},
 		{"copy-across", 4, (*gen).opCopyAcross},
 		{"convert", 6, (*gen).opConvert},
 		{"lookup-assign", 4, (*gen).opLookupAssign},
@@ -171,6 +173,12 @@ func (g *gen) opDeferArg() bool {
 		g.w.ind++
 		g.w.line("defer %s(%s)", fn, q.expr)
 		g.mutateInt(q.expr, q.t, false)
+		if q.t.k != kInt && g.chance(40) {
+			// the variable itself is set again after the defer statement: the
+			// deferred call keeps the value it had (slice, map, pointer included)
+			g.w.line("%s = %s", q.expr, g.lit(q.t, ""))
+			g.count("defer-arg:reassigned")
+		}
 		g.w.ind--
 		g.w.line("}()")
 	})
@@ -323,6 +331,64 @@ func (g *gen) opAppendSelf() bool {
 	g.guarded(append(p.wguards(), fmt.Sprintf("%d < len(%s)", i, p.expr)), func() {
 		g.appendStmt(p, p.expr, vals, n)
 	})
+	return true
+}
+
+// opAppendOwnElements: P = append(P[:a], P[i], P[j]) with i > j: the arguments
+// are elements of the appended slice, which the stores of the append overwrite;
+// they are read before (the elements may be slices, maps or pointers).
+func (g *gen) opAppendOwnElements() bool {
+	p, ok := g.pickPool(func(sc schema) bool { return sc.end.k == kSlice && sc.assignable })
+	if !ok {
+		return false
+	}
+	n := 3
+	if sh, ok := g.shadow[p.expr]; ok && sh.l > 1 {
+		n = sh.l
+	}
+	j := g.rng(0, n-2, "j")
+	i := g.rng(j+1, n-1, "i")
+	a := g.rng(0, j, "a")
+	guards := append(p.wguards(), fmt.Sprintf("%d < len(%s)", i, p.expr), fmt.Sprintf("%d <= len(%s)", a+2, p.expr))
+	g.guarded(guards, func() {
+		g.w.line("%s = append(%s[:%d], %s[%d], %s[%d])", p.expr, p.expr, a, p.expr, i, p.expr, j)
+	})
+	g.wrote(p)
+	g.prog.Flagged[g.step] = "alias-append"
+	return true
+}
+
+// opNamedResultsSwap: P, Q = f(P, Q) where f returns its named results in the
+// other order (the results may be slices, maps or pointers: the value of a
+// result variable is read before another result is stored).
+func (g *gen) opNamedResultsSwap() bool {
+	p, ok := g.pickPool(func(sc schema) bool { return composite(sc) && sc.assignable })
+	if !ok {
+		return false
+	}
+	cs := g.poolPlaces(func(sc schema) bool { return sc.end == p.t && sc.assignable })
+	if len(cs) == 0 {
+		return false
+	}
+	c := cs[g.uni(len(cs), "other")]
+	q := g.inst(c.v.name, c.v.t.k != kPtr, c.sc)
+	if q.expr == p.expr {
+		return false
+	}
+	fn := g.fresh("f")
+	g.inFunc(fmt.Sprintf("func %s(a, b %s) (x, y %s)", fn, p.t.str, p.t.str), func() {
+		g.w.line("x, y = a, b")
+		g.w.line("return y, x")
+	})
+	g.guarded(append(p.wguards(), q.wguards()...), func() {
+		r1, r2 := g.fresh("r"), g.fresh("r")
+		g.w.line("%s, %s := %s(%s, %s)", r1, r2, fn, p.expr, q.expr)
+		g.w.line("%s = %s", p.expr, r1)
+		g.w.line("%s = %s", q.expr, r2)
+	})
+	g.wrote(p)
+	g.wrote(q)
+	g.forget()
 	return true
 }
 
